@@ -1,4 +1,5 @@
 import GodiProofs.Container.Verdict
+import GodiProofs.Container.NoCaptive
 /-!
 # C07 — No captive dependencies
 
@@ -64,6 +65,32 @@ theorem group_consults_members (beh : Beh) (st : State) (s f ty grp : Nat) (h : 
     getGroup beh (f + 1) st s ty grp = resolveMembers beh f st s (groupMembers st.descs ty grp) [] := by
   unfold getGroup; simp [h]
 
+/-! ### what long-lived constructors actually receive, over Build and all histories -/
+
+theorem accepted_of_verdict (descs : List Desc) (h : verdict descs = .ok ∨ verdict descs = .missing) : Accepted descs :=
+  fun d hd hl dep hdep t hp => accepted_means_no_scoped_provider descs h d hd hl dep hdep t hp
+
+/-- NO CAPTIVE DEPENDENCIES. For every registry with the collection's structural guarantees that
+validation accepts, every constructor behaviour, every creation order with which Build succeeds and
+every history of resolutions, group resolutions, scope creations and closes afterwards: a constructor
+of a singleton or transient registration has never received — as a plain, keyed or aliased argument,
+as a parameter-object field or inside a group argument — an instance produced by a constructor of a
+scoped registration. (The indirect form of the property is this statement applied to the events of the
+other singletons and transients: what they hold are their own arguments.) -/
+theorem no_captive_dependencies (beh : Beh) (descs : List Desc) (order : List Nat) (ops : List Op)
+    (wf : WF descs) (rw' : RegWF descs) (is : InstSingleton descs) (idist : InstDistinct descs) (hz : LongCtor descs 0)
+    (hv : verdict descs = .ok) (hok : (buildRuntime beh descs order).2 = .ok ())
+    (did c inv s : Nat) (args : List Val) (outs : List Inst)
+    (he : Event.ctor did c inv s args outs ∈ (run beh (buildRuntime beh descs order).1 ops).log)
+    (x : Desc) (hx : findDesc descs did = some x) (hlong : x.life ≠ .scoped) :
+    (∀ i, Val.inst i ∈ args → LongCtor descs ((run beh (buildRuntime beh descs order).1 ops).instMeta i).1) ∧
+    (∀ l i, Val.group l ∈ args → i ∈ l → LongCtor descs ((run beh (buildRuntime beh descs order).1 ops).instMeta i).1) := by
+  have cfg : NCfg descs := ⟨wf, rw', is, accepted_of_verdict descs (Or.inl hv)⟩
+  have nc0 := build_nc beh cfg hz order hok
+  have hinit : InitOK (buildRuntime beh descs order).1 :=
+    ((build_ledger beh descs order wf rw' is idist).2.1 hok).2.2.2.1
+  exact (nc_run beh cfg ops _ nc0 hinit).event_args_clean did c inv s args outs he x hx hlong
+
 /-! non-vacuity: singleton 0 takes a group whose member 1 is scoped ⇒ lifetime conflict;
 the same with a scoped consumer is accepted -/
 def bad : List Desc :=
@@ -74,5 +101,11 @@ def good : List Desc :=
    { id := 1, ident := ⟨4, 101, 1⟩, life := .scoped, ctor := 2, kind := .plain, deps := [] }]
 example : verdict bad = .lifetime := by decide
 example : verdict good = .ok := by decide
+
+/-- the hypotheses of `no_captive_dependencies` are satisfiable, Build succeeds on the accepted registry -/
+example : WF good ∧ RegWF good ∧ InstSingleton good ∧ InstDistinct good ∧ LongCtor good 0 ∧
+    (match (buildRuntime {} good [1, 0]).2 with | .ok _ => true | .error _ => false) = true := by
+  refine ⟨⟨?_, ?_⟩, ⟨?_, ?_, ?_, ?_, ?_, ?_⟩, ?_, ?_, ?_, by decide⟩ <;>
+    simp [SibLife, good, findDesc, InstSingleton, InstDistinct, LongCtor] <;> decide
 
 end Godi.Props.C07
